@@ -51,11 +51,19 @@ def search(res, tier, seed, deep=False):
             Lo, So = d.running_window_length, d.running_window_step_length
             Lo += (Lo % 2 == 0); So += (So % 2 == 0)
             nO, nH, nF = r.randint(740, 800), r.randint(740, 800), r.randint(500, 780)
+            trend = 0.0
+            if name == "ISIMIP":
+                # several years with a clear trend, so that the detrending step (trend of the annual means, applied
+                # when significant) is active: it must use the window's values only
+                nF = r.randint(1830, 2200); trend = r.choice([0.6, 1.0]) / 365.25
             starts = [datetime.date(r.choice([1979, 1980]), r.randint(1, 12), r.randint(1, 28)) for _ in range(2)] + [datetime.date(r.choice([2039, 2040]), r.randint(1, 12), r.randint(1, 28))]
+            if r.random() < 0.35:
+                # look-alike reference periods: equal length, same first calendar day, different years (one starts in a leap year)
+                nH = nO; starts[1] = datetime.date(starts[0].year + r.choice([1, 2]), starts[0].month, starts[0].day)
             tO, tH, tF = [create_array_of_consecutive_dates(n, np.datetime64(s)) for n, s in zip((nO, nH, nF), starts)]
             rs = np.random.RandomState(r.randint(0, 10 ** 6))
             mk = lambda n, s: 280 + s + 8 * np.sin(np.arange(n) * 2 * np.pi / 365.25) + rs.normal(0, 2, n)
-            obs, hist, fut = mk(nO, 0), mk(nH, 2), mk(nF, 3)
+            obs, hist, fut = mk(nO, 0), mk(nH, 2), mk(nF, 3) + trend * np.arange(nF)
             dO, dH, dF = day_of_year(tO), day_of_year(tH), day_of_year(tF)
             tk = dict(time_obs=tO, time_cm_hist=tH, time_cm_future=tF)
             dA = dO if name == "DeltaChange" else dF
